@@ -71,7 +71,7 @@ def rand_note(rng, families=FAMILIES, inside=True):
     if k != "s" and rng.random() < 0.05:
         n["acc"] = rng.choice(ACCS)
     if rng.random() < 0.2:
-        n["tags"] = rng.sample(["a", "b", "staccato", "x1"], rng.choice([1, 1, 2]))
+        n["tags"] = rng.sample(["a", "b", "staccato", "x1", "B", "a1", "a10", "a_b", "ab", "step_s0", "Z", "t7", "t13"], rng.choice([1, 1, 2, 3, 5]))
     return n
 
 
@@ -132,7 +132,7 @@ class NoteText(Stream):
         def f():
             n = mk_note(case["note"])
             s = str(n)
-            order = sorted(n.tags, key=repr)              # the text lists the tags in sorted order
+            order = list(n.tags)                          # the set as it iterates: the model sorts it (Tags.sort_tags), like the text
             try:
                 m = eval(s, lib_namespace())
                 back = read_note(m)
